@@ -18,7 +18,8 @@ Part 2: the functional layer (Model/C04Key, C04Classify, C04Sort).
                                   `clz(a ^ b)/8` and `8 - ctz(a)/8` are the LCP contributions the sorter adds
   * `subjobs_write_disjoint`, `subjobs_order_irrelevant`   bucket ranges are disjoint; the arrays do
                                   not depend on the order in which the sub-jobs run
-  * `distribution_is_partition`, `bucket_bounds_cover`, `equal_bucket_is_splitter`   classification / distribution
+  * `distribution_is_partition`, `bucket_bounds_cover`, `equal_bucket_is_splitter`, `classification_monotone`,
+    `classification_lower_bound`   classification / distribution (OPEN: `build_isBST_statement`)
   * `sample_sort_step_lemma`      buckets sorted with exact inner LCPs ⇒ after `ps5_sample_sort_lcp` the whole
                                   range is sorted with exact LCPs
   * OPEN: the end-to-end theorem about `sortM` (statement below)
@@ -28,6 +29,7 @@ import TlxVerif.Proofs.C04Str
 import TlxVerif.Proofs.C04Assemble
 import TlxVerif.Proofs.C04Step
 import TlxVerif.Proofs.C04Classify
+import TlxVerif.Proofs.C04Tree
 import TlxVerif.Model.C04Sort
 namespace TlxVerif.C04
 
@@ -470,6 +472,34 @@ theorem equal_bucket_is_splitter {c : Classifier} {useCalc : Bool} {k : Key} {b 
     (h : c.findBkt useCalc k = some b) (hb : b % 2 = 1) : splOf c useCalc (b / 2) = some k :=
   findBkt_odd h hb
 
+/-- **Classification by the splitter tree is monotone.**  If the level-order array is a search
+tree over the in-order splitters `S` (sorted, `get_splitter(i) = S[i]`), then `find_bkt` puts a key
+into bucket `2·(number of splitters below the key)`, `+1` if it equals the next splitter; a smaller
+bucket id therefore means a strictly smaller key — the order hypothesis of the step lemma. -/
+theorem classification_monotone {c : Classifier} {useCalc : Bool} {S : List Key}
+    (hbst : IsBST c.tree c.treebits 1 S) (hsorted : S.Pairwise (fun a b => a ≤ b))
+    (hspl : ∀ i, splOf c useCalc i = S[i]?) {k k' : Key} {b b' : Nat}
+    (h : c.findBkt useCalc k = some b) (h' : c.findBkt useCalc k' = some b') (hlt : b < b') : k < k' :=
+  findBkt_lt hbst hsorted hspl h h' hlt
+
+/-- the descent itself: it ends in the leaf numbered by the lower bound of the key -/
+theorem classification_lower_bound {c : Classifier} {useCalc : Bool} {S : List Key}
+    (hbst : IsBST c.tree c.treebits 1 S) (hspl : ∀ i, splOf c useCalc i = S[i]?) (k : Key) :
+    c.findBkt useCalc k = some (2 * lowerBound S k + (if S[lowerBound S k]? = some k then 1 else 0)) :=
+  findBkt_bst hbst hspl k
+
+/-- what remains to be shown about the tree builder: for sorted samples `build` yields a search tree
+over its in-order splitter list, which is sorted and is what `get_splitter` returns, with
+`splitter_lcp[i]` the LCP of neighbouring splitters -/
+def build_isBST_statement : Prop :=
+  ∀ (tb : Nat) (samples : Array Key) (c : Classifier), 1 ≤ tb → samples.size = 2 * numSplitters tb →
+    samples.toList.Pairwise (fun a b => a ≤ b) → build tb samples = some c →
+    IsBST c.tree tb 1 c.splitters ∧ c.splitters.Pairwise (fun a b => a ≤ b) ∧
+      (∀ i, i < numSplitters tb → c.getSplitterCalc i = c.splitters[i]?)
+-- OPEN: build_isBST_statement — the recursion of SSTreeBuilderLevelOrder writes a search tree into the level-order
+--   array and `pre_to_levelorder` finds the in-order splitters in it; validated on every `classify`/`step` case of the
+--   correspondence (splitters, splitter_lcp and bucket ids of the real classes vs the model), not yet proved.
+
 /-- **The base sorter specification is satisfiable**: `baseSort` (the model's stand-in for
 `insertion_sort`, property C03) returns a sorted permutation with exact LCPs. -/
 theorem base_sorter_good (strs : List Str) : SortedLcp strs (baseSort strs) := baseSort_good strs
@@ -494,7 +524,8 @@ def sortAll_correct_statement : Prop :=
     (sortAll env fuel strs = .ok r → SortedLcp strs r) ∧ sortAll env fuel strs ≠ .error .oob
 -- OPEN: sortAll_correct_statement — proved so far: the key/LCP arithmetic every step relies on (`key_*`),
 --   disjointness and order independence of the sub-job ranges; missing: `build`/`findBkt` = lower-bound
---   classification (monotone in the key; to discharge the key order hypothesis in `BucketsOk` of the step lemma), the MKQS / insertion_sort_cache lemmas and the
+--   classification (`build_isBST_statement`; with it `classification_monotone` discharges the key order hypothesis in
+--   `BucketsOk` of the step lemma), the MKQS / insertion_sort_cache lemmas and the
 --   induction over the recursion that combines them.
 --   The model is tied to the implementation by the correspondence on order, LCPs and classifier internals.
 
